@@ -113,6 +113,7 @@ Definition enc_decl (d : decl) : wv := WL [wtext (fst d); WI (snd d)].
 Fixpoint enc_node (n : node) : wv :=
   match n with
   | NDecl x t => WL [WI 0; wtext x; WI t]
+  | NHoist x t => WL [WI 0; wtext x; WI t]      (* emitted like any declaration *)
   | NAssign x => WL [WI 1; wtext x]
   | NIf brs => WL [WI 2; WL (map (fun b => WL (map enc_node b)) brs)]
   | NWhile b => WL [WI 3; WL (map enc_node b)]
